@@ -55,6 +55,61 @@ Proof.
   destruct l as [|a l]; [apply incl_refl|]. cbn [skipn]. apply incl_tl. apply IH.
 Qed.
 
+(* No history invents, reorders or corrupts an item: what the list holds after
+   any appends, truncations, re-opens and crashes is (newest first) items this
+   history appended, in front of an oldest part [skipn m] of the initial list,
+   unchanged and in order. *)
+Lemma skipn_skipn' {A} a b (l : list A) : skipn a (skipn b l) = skipn (a + b) l.
+Proof.
+  revert l; induction b as [|b IH]; intros l; [rewrite Nat.add_0_r; reflexivity|].
+  rewrite Nat.add_succ_r. destruct l as [|y l]; [rewrite !skipn_nil; reflexivity|].
+  cbn [skipn]. apply IH.
+Qed.
+
+Lemma spec_step_shape xs o xs1 :
+  spec_step xs o xs1 ->
+  exists new m, xs1 = new ++ skipn m xs /\ (forall x, In x new -> o = OAppend x).
+Proof.
+  intros H. destruct H as [xs x|xs i|xs|xs ib c m Hm].
+  - exists [x], 0. split; [reflexivity|]. intros y [<-|[]]. reflexivity.
+  - exists [], (if orb (Nat.ltb i 1) (Nat.leb (S (length xs)) (i + 1)) then 0 else length xs - i).
+    split; [|intros x []]. unfold truncate_spec.
+    destruct (orb (Nat.ltb i 1) (Nat.leb (S (length xs)) (i + 1))); reflexivity.
+  - exists [], 0. split; [reflexivity|intros x []].
+  - exists [], m. split; [reflexivity|intros x []].
+Qed.
+
+Theorem spec_run_shape xs ops xs' :
+  spec_run xs ops xs' ->
+  exists new m, xs' = new ++ skipn m xs /\ (forall x, In x new -> In (OAppend x) ops).
+Proof.
+  intros H. induction H as [xs|xs o xs1 ops xs2 Hs Hr IH].
+  - exists [], 0. split; [reflexivity|intros x []].
+  - destruct IH as (new2 & m2 & -> & Hn2).
+    destruct (spec_step_shape xs o xs1 Hs) as (new1 & m1 & -> & Hn1).
+    destruct (Nat.le_gt_cases m2 (length new1)) as [Hle|Hgt].
+    + exists (new2 ++ skipn m2 new1), m1. split.
+      * rewrite skipn_app. replace (m2 - length new1) with 0 by lia. cbn [skipn].
+        rewrite app_assoc. reflexivity.
+      * intros x Hx. apply in_app_or in Hx as [Hx|Hx]; [right; apply Hn2; exact Hx|].
+        left. apply Hn1. apply (skipn_incl m2 new1). exact Hx.
+    + exists new2, ((m2 - length new1) + m1). split.
+      * rewrite skipn_app, skipn_all2 by lia. cbn [app]. rewrite skipn_skipn'. reflexivity.
+      * intros x Hx. right. apply Hn2. exact Hx.
+Qed.
+
+(* the machine, from any clean state: every history runs, ends clean, and the
+   list it represents has that shape *)
+Theorem run_keeps_items max ops s xs :
+  Clean s xs ->
+  exists s' new m, run max s ops = Some s' /\ Clean s' (new ++ skipn m xs) /\
+                   (forall x, In x new -> In (OAppend x) ops).
+Proof.
+  intros HC. destruct (run_refines max ops s xs HC) as (s' & xs' & Hr & HC' & Hsp).
+  destruct (spec_run_shape xs ops xs' Hsp) as (new & m & -> & Hn).
+  exists s', new, m. split; [exact Hr|]. split; [exact HC'|exact Hn].
+Qed.
+
 (* ---- F1: the loop as it was before the fix ------------------------------ *)
 (* max_file_size 50, four 15-byte items: the 4th rolls over into file 1.
    Crash: file 1 cut to 0 bytes, index complete.  Items 1..3 are fully
